@@ -25,6 +25,7 @@ func c14(c *core.Check) {
 	c.Explain = "ORDER + SIB + EXIT (narrow claim). (1) ORDER over the call-graph closure of FieldMask.MarshalJSON / Marshal: every map iteration is a collect-then-sort or another order-insensitive idiom (JSON text is stable). " +
 		"(2) SIB: the three queries Field / Int / Str are alpha-equivalent modulo the storage accessor (compared with each other), and the intMap / strMap method sets (Reset, Get, SetIfNotExist, Unset) are alpha-equivalent modulo the key type. " +
 		"(3) EXIT: every explicit panic(...) call site of the package that is reachable from an exported function or method is either unreachable by construction — the checker re-verifies the guard: newPathToken's default arm (every call passes a constant token type the switch handles), pathValue.Int32 (every call is preceded by a range test of the same value) — or tabled as a programmer-error panic that no input string can trigger. " +
+		"(4) the trie is a tree: every store of a node into trie storage (map element, head array, `all`) stores a node allocated for that slot, once per store (go/ssa). " +
 		"NOT decided: trie vs path-set equivalence, JSON round trip, acceptance of unterminated index/key brackets."
 	c.RuleText = "one obligation per map-iteration site, sibling pair and reachable panic site"
 	c.Assume = []string{"VTA call graph over-approximates calls", "panics inside strconv/sort/json are outside the rule (library code)"}
@@ -154,6 +155,7 @@ func c14(c *core.Check) {
 	}
 	c.Analysed["exported_entries"] = len(exported)
 	c.Min("no-input-panic", 3)
+	c14trie(c)
 }
 
 // newPathTokenTotal: the panic in newPathToken's default arm is unreachable: every call passes a constant pathType that
